@@ -3,6 +3,8 @@
 package main
 
 import (
+	"time"
+
 	"github.com/tinode/chat/server/auth"
 	"github.com/tinode/chat/server/store"
 	"github.com/tinode/chat/server/store/types"
@@ -19,6 +21,39 @@ func verifTopicString(name string) string {
 		return verifTopicPool[k]
 	}
 	return verifNondetString(name+"-any", 0, 4, "")
+}
+
+// verifTopicDrain plays the part of Topic.runLocal for everything queued to the topic.
+func verifTopicDrain(t *Topic, h *Hub) int {
+	if t.killTimer == nil {
+		t.killTimer = time.NewTimer(time.Hour)
+		t.callEstablishmentTimer = time.NewTimer(time.Second)
+	}
+	n := 0
+	for {
+		select {
+		case msg := <-t.reg:
+			t.registerSession(msg)
+		case msg := <-t.unreg:
+			t.unregisterSession(msg)
+		case msg := <-t.clientMsg:
+			t.handleClientMsg(msg)
+		case msg := <-t.serverMsg:
+			t.handleServerMsg(msg)
+		case meta := <-t.meta:
+			t.handleMeta(meta)
+		case sd := <-t.exit:
+			t.handleTopicTermination(sd)
+			return n + 1
+		default:
+			return n
+		}
+		n++
+		if n > 64 {
+			verifAssert(false, "topic-actor-does-not-quiesce")
+			return n
+		}
+	}
 }
 
 // verifHubDrain plays the part of Hub.run for everything the session enqueued.
@@ -40,6 +75,9 @@ func verifHubDrain(h *Hub) int {
 			h.topicPut(join.RcptTo, t)
 			topicInit(t, join, h)
 			verifDropSpawned()
+			if h.topicGet(join.RcptTo) == t {
+				verifTopicDrain(t, h)
+			}
 		case msg := <-h.routeCli:
 			n++
 			if dst := h.topicGet(msg.RcptTo); dst == nil && msg.Note == nil {
@@ -71,7 +109,9 @@ func verifHubDrain(h *Hub) int {
 	}
 }
 
-func harnessC13Dispatch(kind int) {
+func harnessC13Dispatch(kind int) { harnessC13DispatchV(kind, 0) }
+
+func harnessC13DispatchV(kind int, variant int) {
 	verifNewStore()
 	verifInitGlobals()
 	store.Devices = verifDevices{}
@@ -87,15 +127,20 @@ func harnessC13Dispatch(kind int) {
 		}
 	}
 	verifStore.users[5] = &types.User{State: types.StateOK}
-	topic := verifTopicString("topic")
+	var topic string
+	if variant == 1 {
+		topic = verifTopicPool[verifChoose("topic", len(verifTopicPool))]
+	} else {
+		topic = verifTopicString("topic")
+	}
 	msg := &ClientComMessage{}
 	switch kind {
 	case verifKPub:
 		msg.Pub = &MsgClientPub{Id: "r1", Topic: topic, Content: "x"}
 	case verifKSub:
 		msg.Sub = &MsgClientSub{Id: "r1", Topic: topic}
-		if verifNondetBool("withSet") {
-			msg.Sub.Set = &MsgSetQuery{Sub: &MsgSetSub{Mode: verifNondetString("mode", 0, 3, "JRWN+-x")}}
+		if variant == 1 {
+			msg.Sub.Set = &MsgSetQuery{Sub: &MsgSetSub{Mode: verifNondetString("mode", 0, 2, "JON+x")}}
 		}
 	case verifKLeave:
 		msg.Leave = &MsgClientLeave{Id: "r1", Topic: topic, Unsub: verifNondetBool("unsub")}
@@ -140,6 +185,7 @@ func harnessC13Dispatch(kind int) {
 
 func Harness_C13_dispatch_pub()   { harnessC13Dispatch(verifKPub) }
 func Harness_C13_dispatch_sub()   { harnessC13Dispatch(verifKSub) }
+func Harness_C13_dispatch_sub_mode() { harnessC13DispatchV(verifKSub, 1) }
 func Harness_C13_dispatch_leave() { harnessC13Dispatch(verifKLeave) }
 func Harness_C13_dispatch_get()   { harnessC13Dispatch(verifKGet) }
 func Harness_C13_dispatch_set()   { harnessC13Dispatch(verifKSet) }
